@@ -582,8 +582,9 @@ OPT_PASSES = 'mem2reg,instsimplify,simplifycfg'
 
 
 UNROLL_PASSES = ('mem2reg,instsimplify,simplifycfg,loop-simplify,loop-rotate,indvars,loop-unroll,'
-                 'instsimplify,simplifycfg')
-UNROLL_ARGS = ('-unroll-threshold=4000',)
+                 'instsimplify,early-cse,gvn,simplifycfg,instsimplify')
+UNROLL_ARGS = ('-unroll-threshold=4000', '-two-entry-phi-node-folding-threshold=1000',
+               '-phi-node-folding-threshold=1000')
 
 
 def compile_ir(src, repo, extra_flags=(), out_name=None, passes=OPT_PASSES,
